@@ -24,7 +24,7 @@ func init() {
 		Rule: "one run = N searches pipelined on one connection (N in {2,8,64}; up to 512 in thorough); each handler first joins a barrier that opens only when all N handlers have entered " +
 			"(simultaneity is proven, not assumed), then writes K entries with unique ids (h=<message id>,j=<seq>) whose payload is a function of (h,j,len), len cycling through {3,100,5000,70000} " +
 			"(below/above the 4096-byte write buffer), then SearchDone; every Write result is logged. Runs cover plain / TLS-listener / StartTLS-upgraded transports x eager / back-pressure reading x GOMAXPROCS {1,2,4,16}, " +
-			"under the race detector; plus thousands of small bursts (2..4 writers, then silence) on one long-lived connection, where every frame of a burst must arrive before the client sends anything else; and runs in which the server is stopped while handlers are writing and the client keeps pipelining (gldap's own shutdown notice shares the stream); runs against a server with a write timeout in which a frame larger than every socket buffer is written to a client that reads again only after a Write has failed, followed by a further request; victim connections that reset in the middle of a response before and between the writer rounds; connections that stay in use after one to three Writes panicked while encoding (recovered); single frames whose encoded size sweeps the neighbourhood of the write buffer size, each followed by silence; pipelines that end with an Unbind so that the server closes while the slow client still has most frames to read; and pipelines with a StartTLS request behind the searches, which the server answers from the read loop while the handlers write; and handlers that panic (recovered) while another handler of their connection is blocked in Write. Oracle: strict incremental parse; multiset of ids == set of successful writes; per-writer order; payload check. " +
+			"under the race detector; plus thousands of small bursts (2..4 writers, then silence) on one long-lived connection, where every frame of a burst must arrive before the client sends anything else; and runs in which the server is stopped while handlers are writing and the client keeps pipelining (gldap's own shutdown notice shares the stream); runs in which the client (16KB receive buffer) stops reading for 2.6..4.4s in the middle of a stream of 70KB frames, so that one writer sits in the network write and the others wait for it all that time; runs against a server with a write timeout in which a frame larger than every socket buffer is written to a client that reads again only after a Write has failed, followed by a further request; victim connections that reset in the middle of a response before and between the writer rounds; connections that stay in use after one to three Writes panicked while encoding (recovered); single frames whose encoded size sweeps the neighbourhood of the write buffer size, each followed by silence; pipelines that end with an Unbind so that the server closes while the slow client still has most frames to read; and pipelines with a StartTLS request behind the searches, which the server answers from the read loop while the handlers write; and handlers that panic (recovered) while another handler of their connection is blocked in Write. Oracle: strict incremental parse; multiset of ids == set of successful writes; per-writer order; payload check. " +
 			"distinct_nontrivial = distinct cross-writer interleaving signatures (order of writer ids in the received stream) with at least one cross-writer switch",
 		Assume: []string{"the client-side parser (internal/sber) is strict and independent of asn1-ber"},
 		Phases: func(tier string, seed int64) []Phase {
@@ -43,7 +43,7 @@ func init() {
 			}
 			return ps
 		},
-		MinObserved: []string{"frames_checked", "cross_writer_switches", "barrier_openings", "bursts_fully_answered_without_further_traffic", "stops_during_concurrent_writes", "write_timeout_runs", "victim_connections_reset_mid_response", "connections_used_after_a_panic_inside_write", "single_frames_around_the_write_buffer_size", "runs_in_which_the_server_closes_before_the_client_has_read_everything", "runs_with_a_starttls_request_answered_among_the_writers", "panics_next_to_a_writer_blocked_in_write"},
+		MinObserved: []string{"frames_checked", "cross_writer_switches", "barrier_openings", "bursts_fully_answered_without_further_traffic", "stops_during_concurrent_writes", "write_timeout_runs", "victim_connections_reset_mid_response", "connections_used_after_a_panic_inside_write", "single_frames_around_the_write_buffer_size", "runs_in_which_the_server_closes_before_the_client_has_read_everything", "runs_with_a_starttls_request_answered_among_the_writers", "panics_next_to_a_writer_blocked_in_write", "runs_in_which_the_client_stopped_reading_for_seconds"},
 	})
 }
 
@@ -70,6 +70,28 @@ type c05Cfg struct {
 	// ExtraStartTLS: a StartTLS extended request (which the server answers from its read loop, not from a handler
 	// goroutine) rides behind the searches, so that its response shares the stream with the writers' frames
 	ExtraStartTLS bool
+	// Stall: the client (with a small receive buffer) reads a little, then nothing at all for this long, then everything;
+	// most frames are 70KB, so that a writer sits in the network write for the whole stall while the others wait for it
+	Stall time.Duration
+}
+
+// stallReader reads normally, except that once - after `at` bytes - it reads nothing at all for `stall`.
+type stallReader struct {
+	r     io.Reader
+	at    int
+	stall time.Duration
+	read  int
+	done  bool
+}
+
+func (s *stallReader) Read(p []byte) (int, error) {
+	if !s.done && s.read >= s.at {
+		s.done = true
+		time.Sleep(s.stall)
+	}
+	k, err := s.r.Read(p)
+	s.read += k
+	return k, err
 }
 
 // slowReader sips from the connection in small chunks with pauses for the
@@ -137,6 +159,9 @@ func c05One(c *Ctx, pki *PKI, cfg c05Cfg, r *Rand) {
 		h := m.GetID()
 		for j := 0; j < cfg.K; j++ {
 			n := c05Lens[(int(h)+j)%len(c05Lens)]
+			if cfg.Stall > 0 && j%5 != 4 {
+				n = 70000
+			}
 			e := req.NewSearchResponseEntry(fmt.Sprintf("h=%d,j=%d", h, j))
 			e.AddAttribute("p", []string{string(c05Payload(h, j, n))})
 			err := w.Write(e)
@@ -197,6 +222,9 @@ func c05One(c *Ctx, pki *PKI, cfg c05Cfg, r *Rand) {
 		return
 	}
 	defer conn.Close()
+	if tcpc, ok := conn.(*net.TCPConn); ok && cfg.Stall > 0 {
+		tcpc.SetReadBuffer(16 << 10)
+	}
 	if cfg.Transport == "starttls" {
 		conn.Write(sber.Message(1, sber.ExtendedRequest([]byte(sber.OIDStartTLS), nil, false), nil).Encode())
 		cl := wrapClient(conn)
@@ -241,6 +269,10 @@ func c05One(c *Ctx, pki *PKI, cfg c05Cfg, r *Rand) {
 	var rd io.Reader = conn
 	if cfg.Slow {
 		rd = &slowReader{r: conn, rng: r.Sub("slow"), limit: 400000}
+	}
+	if cfg.Stall > 0 {
+		rd = &stallReader{r: conn, at: 150000, stall: cfg.Stall}
+		c.Count("runs_in_which_the_client_stopped_reading_for_seconds", 1)
 	}
 	br := bufio.NewReaderSize(rd, 32<<10)
 	want := cfg.N * (cfg.K + 1)
@@ -1058,6 +1090,15 @@ func c05Run(c *Ctx) {
 	}
 	for i := 0; i < c.N(6, 80); i++ {
 		c05StopDuringWrites(c, r.Sub(fmt.Sprintf("stop%d", i)), i)
+	}
+	// a client that stops reading for seconds in the middle of the stream: some writer sits in its network write all
+	// that time and the others wait for it - however long that takes, they wait
+	stallTr := []string{"plain", "starttls"}
+	if !c.Quick() {
+		stallTr = []string{"plain", "starttls", "tls", "plain", "plain"}
+	}
+	for i, tr := range stallTr {
+		c05One(c, pki, c05Cfg{N: 4 + 2*(i%2), K: 30, Transport: tr, Stall: time.Duration(2600+900*(i%3)) * time.Millisecond}, r.Sub(fmt.Sprintf("stall/%d", i)))
 	}
 	c05Bursts(c, r.Sub("bursts"), c.N(4000, 60000))
 	ns := []int{2, 8, 64}
